@@ -1269,6 +1269,19 @@ impl Expression {
         }
     }
 
+    /// Renumber the scope references at or above `from` (a scope was inserted below them).
+    pub(super) fn shift_scope_refs(&mut self, from: usize) {
+        if let Self::ScopeRef { index, .. } = self {
+            if *index >= from {
+                *index += 1;
+            }
+            return;
+        }
+        for sub in self.sub_expressions_mut() {
+            sub.shift_scope_refs(from);
+        }
+    }
+
     pub(super) fn collect_binding_map_keys(
         &self,
         bmc: &mut BindingMapCollector,
